@@ -77,6 +77,27 @@ CHECKS = {
             "the parabola vertex position, ties between equal peaks and alpha's fitted value are numeric and not decided.",
             "custom ast rules: reaching-definition data-flow + comparison-only (finite ordering) analysis of the locator",
             "DESIGN.md section 4 C02"),
+    "C03": (True, "other",
+            "Path enumeration through each watershed kernel's partition loop proves that every (disjoint) watershed part is "
+            "consumed exactly once - whole, or as a complementary pair of masked halves - from the ORIGINAL spectrum, so no "
+            "bin is duplicated or lost; structural rules decide the order of operations (negated library Hs of the very "
+            "partitions returned, pure permutation, truncate/pad after the sort, wind sea first), the exact-count case split "
+            "(identity test for None, strict comparisons, [:n], n-len zero appends), the wind-sea fraction test, and sibling "
+            "agreement between each wrapper's declared part size and its kernel.",
+            "that the masks equal the true basins is C04's matter; dtype rounding and ties between numerically equal "
+            "partitions are not decided; np_hp01* merging logic is checked only for size agreement.",
+            "custom ast rules: path enumeration (linear-consumption typestate) + structural ordering rules + sibling cross-check",
+            "DESIGN.md section 4 C03"),
+    "C05": (True, "other",
+            "Decides the structural reasons results are layout- and storage-order independent: accepted-idiom dataflow at "
+            "every call into the C extension (C-contiguous float32), circular difference wherever two stored directions are "
+            "subtracted, an order-provenance abstract interpretation over every function (positional / slice operations only "
+            "on data sorted in the same function; direction labels only assigned across equal provenance), no positional "
+            "axis on labelled data, core-dim order matching kernel axis order, and the circular neighbour table (shared).",
+            "equality under transposition and dtype width as such are not executed; only the direction axis is tracked "
+            "(frequencies assumed ascending as the library does); one exemption (spread_hp01, width cancels) is tabled.",
+            "order-provenance abstract interpretation over ast + idiom dataflow + sibling cross-check",
+            "DESIGN.md section 4 C05"),
 }
 
 NA_DEFAULT = "check under construction in this build round (see DESIGN.md section 8)"
